@@ -126,16 +126,7 @@ fn strategy(_t: Tier) -> impl Strategy<Value = Case> {
     (proptest::collection::vec(proof, 1..4), 0u8..3, any::<u64>()).prop_map(|(proofs, key, seed)| Case { proofs, key, seed })
 }
 
-pub fn range_params(seed: u64) -> Arc<RangeConstraintParameters> {
-    static C: OnceLock<Mutex<HashMap<u64, Arc<RangeConstraintParameters>>>> = OnceLock::new();
-    let c = C.get_or_init(|| Mutex::new(HashMap::new()));
-    if let Some(p) = c.lock().unwrap().get(&seed) {
-        return p.clone();
-    }
-    let p = Arc::new(RangeConstraintParameters::new(&mut rng(0x7a6e_0000 + seed)));
-    c.lock().unwrap().insert(seed, p.clone());
-    p
-}
+pub use super::common::range_params;
 
 // ---- type-erased provers / proofs -------------------------------------------------------------
 
